@@ -1,9 +1,142 @@
-"""C02 part (b): the pixel pipeline BaseImage._get_render_data (to be filled in)."""
+"""C02 part (b): the pixel pipeline BaseImage._get_render_data on a recording image double.
+
+PIL operations are uninterpreted: every operation builds an expression tree; the tree of the returned image, the
+pixel list and the alpha list must be the documented pipeline for the case at hand (no resize when the pixel
+size already equals the render resolution, composite over the requested colour / terminal background / black,
+alpha thresholded at round(255 t), alpha ignored when transparency is disabled)."""
+from __future__ import annotations
+
+import z3
+
+from sx import core
+from sx.core import SymBool, SymInt, sym_and, term
+
+MODES = ["1", "L", "LA", "P", "PA", "RGB", "RGBA", "CMYK", "HSV"]
+NO_ALPHA_MODES = {"1", "L", "RGB", "HSV", "CMYK"}
+
+
+class Img:
+    """expression-recording stand-in for PIL.Image.Image"""
+
+    def __init__(self, expr, mode, size, alpha_samples=None):
+        self.expr, self.mode, self.size = expr, mode, tuple(size)
+        self.closed = False
+        self.alpha_samples = alpha_samples
+
+    def seek(self, k):
+        pass
+
+    def convert(self, mode):
+        return Img(("convert", self.expr, mode), mode, self.size, self.alpha_samples if mode in ("RGBA", "LA", "PA") else None)
+
+    def resize(self, size, resample=None):
+        return Img(("resize", self.expr, tuple(size), resample), self.mode, size, self.alpha_samples_resized(size))
+
+    def alpha_samples_resized(self, size):
+        return self.alpha_samples  # samples are taken at render resolution by the harness
+
+    def alpha_composite(self, other):
+        self.expr = ("composite", self.expr, other.expr)
+
+    def putalpha(self, ch):
+        self.expr = ("putalpha", self.expr, ch.expr)
+        self.alpha_samples = ch.alpha_samples
+
+    def getchannel(self, c):
+        return Img(("channel", self.expr, c), "L", self.size, self.alpha_samples)
+
+    def getdata(self, band=None):
+        n = self.size[0] * self.size[1]
+        if band is not None:
+            return list(self.alpha_samples) if self.alpha_samples is not None else [255] * n
+        return [("px", self.expr, i) for i in range(n)]
+
+    def close(self):
+        self.closed = True
 
 
 def pipeline_shapes(tier):
-    return []
+    out = []
+    for mode in MODES:
+        for alpha in ("none", "threshold", "terminal_bg", "hex"):
+            out.append({"part": "pipeline", "src_mode": mode, "alpha": alpha})
+    return out
 
 
 def pipeline_body(check, eng, shape):
-    raise NotImplementedError
+    common = check.mods["common"]
+    img_obj = check.img
+    mode, alpha_kind = shape["src_mode"], shape["alpha"]
+    same = bool(eng.bool("pixel_size_equals_render_resolution"))
+    rsize = (2, 2)
+    ssize = rsize if same else (5, 3)
+    n = rsize[0] * rsize[1]
+    has_alpha = mode not in NO_ALPHA_MODES
+    samples = [eng.int(f"alpha_sample{i}", 0, 255) for i in range(n)]
+    src = Img(("source",), mode, ssize, samples if has_alpha else None)
+    bg_known = bool(eng.bool("terminal_bg_known"))
+    bg_hex = "#0a141e" if bg_known else None
+    common.get_fg_bg_colors = lambda **kw: (None, bg_hex) if kw.get("hex") else (None, (10, 20, 30) if bg_known else None)
+
+    class ImageNS:
+        Image = Img
+        Resampling = type("R", (), {"BOX": "BOX"})
+
+        @staticmethod
+        def new(m, size, color=None):
+            return Img(("new", m, tuple(size), color), m, size, [255] * (size[0] * size[1]))
+
+    common.Image = ImageNS
+    img_obj._is_animated = False
+    img_obj._source = src
+    if alpha_kind == "none":
+        alpha = None
+    elif alpha_kind == "threshold":
+        alpha = eng.real("threshold", 0, z3.RealVal(255) / 256)
+    elif alpha_kind == "terminal_bg":
+        alpha = "#"
+    else:
+        alpha = "#112233"
+    round_alpha = bool(eng.bool("round_alpha")) if alpha_kind == "threshold" else False
+    res, rgb, a = img_obj._get_render_data(src, alpha, size=rsize, pixel_data=True, round_alpha=round_alpha)
+    eng.reachable()
+
+    def prep(target):
+        e, m = ("source",), mode
+        if m != target:
+            e, m = ("convert", e, target), target
+        if not same:
+            e = ("resize", e, rsize, "BOX")
+        return e
+
+    if alpha is None or not has_alpha:
+        e = prep("RGB")
+        eng.claim("no transparency: converted to RGB (only if needed), BOX-resized only if the pixel size differs, nothing else", res.expr == e and res.mode == "RGB")
+        eng.claim("no transparency: pixels are the image's pixels at render resolution", rgb == [("px", e, i) for i in range(n)])
+        eng.claim("no transparency: alpha is ignored (all opaque)", a == [255] * n)
+        return
+    e1 = prep("RGBA")
+    if isinstance(alpha, str):
+        colour = alpha if alpha != "#" else (bg_hex or "#000000")
+        e = ("convert", ("composite", ("new", "RGBA", rsize, colour), e1), "RGB")
+        eng.claim("background colour: composited over the requested colour (terminal background, black when unknown), then RGB", res.expr == e and res.mode == "RGB")
+        eng.claim("background colour: pixels come from the composited image", rgb == [("px", e, i) for i in range(n)])
+        eng.claim("background colour: every pixel is opaque", a == [255] * n)
+        return
+    # threshold
+    if round_alpha:
+        e = ("putalpha", ("composite", ("new", "RGBA", rsize, bg_hex or "#000000"), e1), ("channel", e1, "A"))
+        eng.claim("threshold: colours composited over the terminal background (black when unknown) with the alpha channel kept", res.expr == e)
+        eng.claim("threshold: pixels come from that image", rgb == [("px", ("convert", e, "RGB"), i) for i in range(n)])
+        thr = core.rterm(alpha) * 255
+        conds = []
+        for got, s_ in zip(a, samples):
+            # 0 iff sample < round(255 t): round() may land on either neighbour at an exact tie
+            eps = z3.RealVal(1) / (2**30)  # slack for the double rounding of t * 255
+            lo = z3.ToReal(term(s_)) < thr - z3.RealVal(1) / 2 - eps
+            hi = z3.ToReal(term(s_)) > thr + z3.RealVal(1) / 2 + eps
+            conds.append(z3.And(z3.Implies(lo, term(got) == 0), z3.Implies(hi, term(got) == 255), z3.Or(term(got) == 0, term(got) == 255)))
+        eng.claim("threshold: alpha below round(255 t) becomes 0 (terminal background shows), otherwise 255 (opaque)", z3.And(*conds))
+    else:
+        eng.claim("threshold (graphics styles): image only converted / resized, alpha values used as they are", res.expr == e1 and [term(x) for x in a] == [term(s_) for s_ in samples])
+    eng.observe("n", len(a))
